@@ -23,6 +23,7 @@ CONSTANTS
   EnableG2C = FALSE
   Adversary = TRUE
   UseTCP = FALSE
+  WFailBudget = 0
   ChanUnderLock = TRUE
   AckChanCheck = TRUE
   Urgent = FALSE
